@@ -84,6 +84,14 @@ def _stratum(ctx):
                         trees.append(["or", ["leaf", f"<{lo}"], ["leaf", f">={hi}"]])
                         trees.append(["and", ["leaf", f">={lo}"], ["leaf", f"<{hi}"]])
                         trees.append(["or", ["leaf", f"<{lo}.0"], ["leaf", f">={hi}"]])
+        # bounds in different epochs (index 0 of the padded comparison is the epoch)
+        for lo_ep, hi_ep in (("", "1!"), ("1!", "2!"), ("", "2!")):
+            for hi_rel in ("0", "0.0", "1", "0.1", lo_rel):
+                for ls in ("", "a1", ".dev0", ".post1"):
+                    lo, hi = lo_ep + lo_rel + ls, hi_ep + hi_rel
+                    trees.append(["and", ["leaf", f">={lo}"], ["leaf", f"<{hi}"]])
+                    trees.append(["leaf", f">={lo},<{hi}"])
+                    trees.append(["or", ["leaf", f"<{lo}"], ["leaf", f">={hi}"]])
         for s in _suffixes():
             v = lo_rel + s
             trees.append(["or", ["leaf", f"<{v}"], ["leaf", f">{v}"]])
